@@ -14,9 +14,9 @@ P = {
  "C02": ("guard-before-use dataflow on script-controlled values in every registered built-in, panic-operand census, unchecked type-assertion census, API-boundary recover coverage, stack-guard ordering, table exhaustiveness",
          "Decides absence (or exact enumeration) of the structural ways a Go panic can be raised by script-controlled data and escape: every public API root that reaches throwing internals does so under catchPanic; every panic operand is a JS-catchable type or sits in a provably dead default arm; every built-in guards call.This/arguments before dereferencing; every unchecked type assertion is justified by the Value/class representation invariant; the stack-depth test precedes the scope push.",
          "Not decided: index-out-of-range / nil dereference on values that are not script-derived, memory exhaustion, every numeric edge. Thorough tier adds call-graph (VTA) reachability and residual-recursion SCC review."),
- "C03": ("precedence-ladder extraction compared with the ES5 grammar table; scanner punctuator/keyword tables compared with ES5 7.6-7.7",
-         "Decides the grammar-shape clauses: the binary-operator ladder has the ES5 levels in the ES5 order with ES5 token sets and associativity; the scanner can emit exactly the ES5 punctuators; the keyword table is the ES5 reserved-word list; the no-in flag is restored on every exit; restricted productions consult the newline flag.",
-         "Not decided: literal values (number/escape decoding), regexp-vs-division choice, ASI beyond the restricted productions, whitespace/comment insensitivity."),
+ "C03": ("precedence-ladder extraction compared with the ES5 grammar table; symbolic execution of the scanner's punctuation switch; keyword table comparison; flag save/restore pairing",
+         'Decides the grammar-shape clauses: the binary-operator ladder has the ES5 levels in the ES5 order with the ES5 token sets, left/right associativity and comparison flag, and the conditional/assignment/comma/unary/postfix tails chain as ES5 11.3-11.14 say; the scanner can emit exactly the ES5 7.7 punctuators and each maps to the token of that spelling; the keyword table is the ES5 reserved-word list with the right strictness; every operator the parser emits has an evaluator arm; the no-in and iteration/switch/function flags are restored on every exit.',
+         'Not decided: literal values (number/escape decoding), regexp-vs-division choice, automatic semicolon insertion (including restricted productions), whitespace/comment insensitivity.'),
  "C04": ("parser loop-progress (termination) analysis on the CFG, Bad-node-implies-error dominance, parse-before-evaluate ordering, Walk exhaustiveness and typed-nil guards, panic census of parser/ast/file",
          "Decides: every parser loop consumes a token on each iteration and stops at EOF (termination), every BadExpression/BadStatement construction is preceded by an error record, a non-nil parse error makes evaluation unreachable, ast.Walk has a case for every node type visiting every child field exactly once and never passes a typed nil, and no foreign panic is raised in the parser packages outside reviewed dead arms.",
          "Not decided: that error positions lie inside the input, span containment (runtime offsets), the exact set of rejected texts beyond the enumerated early errors."),
@@ -35,9 +35,9 @@ P = {
  "C09": ("unit-typed dataflow (bytes / UTF-16 units / runes) over the string built-ins; sibling receiver-coercion rule; guard-before-use",
          "Decides: no index/slice or position returned to the script definitely mixes byte, rune and UTF-16 units outside the keyed known findings; every String.prototype method coerces its receiver via checkObjectCoercible or a class guard before use.",
          "Not decided: results for particular strings (clamping, case mapping, split)."),
- "C10": ("unit-typed dataflow over the exec/match/replace/search/split protocol, nil-field contradiction rule, library error-use rule",
-         "Decides: lastIndex/index positions are not definitely mixed between bytes and UTF-16 units outside keyed known findings; the compiled regexp pointer is non-nil wherever dereferenced; errors of regexp.Compile / TransformRegExp are checked before the pattern is used and no Must* call receives script data.",
-         "Not decided: soundness of the pattern translation and the matching protocol's values (a language-equivalence question)."),
+ "C10": ('unit-typed dataflow over the exec/match/replace/search/split protocol, nil-field contradiction rule, Must*-on-constants rule, effect rule for search',
+         'Decides: lastIndex/index positions are not definitely mixed between bytes and UTF-16 units outside the keyed known findings; the compiled regexp pointer is non-nil wherever it is dereferenced; no Must* library constructor receives script data; String.prototype.search never reads or writes lastIndex; no package-level cache couples regexps of different runtimes.',
+         "Not decided: soundness of the pattern translation, capture groups, the matching protocol's values (a language-equivalence question)."),
  "C11": ("type-switch exhaustiveness over encoding/json's dynamic types, cycle-test dominance, gap bound dominance, error mapping",
          "Decides: JSON.parse's walker covers every dynamic type encoding/json can produce; every recursive stringify step on an object is dominated by the cycle test that throws TypeError; the gap is clamped to 10 before it is stored; Unmarshal errors map to SyntaxError on all paths.",
          "Not decided: acceptance of exactly the JSON grammar (delegated to encoding/json), round-trip equality, reviver/replacer order."),
@@ -50,21 +50,21 @@ P = {
  "C14": ("abstract interpretation of the generated heap-construction literal compared with an independent ES5 section 15 table (exhaustive)",
          "Decides exhaustively, for a fresh runtime: every ES5 15.1-15.12 + Annex B.2 binding is present with the specified kind, function length, attributes, [[Class]], [[Prototype]], constructor/prototype links and constant value; no built-in binding anywhere is enumerable; property map and order list agree; bindings are injective outside the ES5 alias groups (no cross-wiring); construction order never reads an unassigned intrinsic.",
          "Not decided: the runtime after underscore (JavaScript source) is loaded; behaviour of each bound function. Copy() shape rests on the CLONE rules of C17."),
- "C15": ("value-representation table agreement for Go->Value->Go, API-boundary recover coverage",
-         "Decides: every supported Go kind is storable by toValue and handled by every accessor that later reads it; the Value/Object/Otto accessors that reach throwing internals are wrapped by catchPanic; export()'s payload switch covers the bridge payload types.",
-         "Not decided: equality of the round-tripped value."),
- "C16": ("library-semantics rules on reflect (convertibility, overflow tests before integer Convert, exported-name guard), panic-operand census in the bridge files, unchecked-assertion census on descriptors",
-         "Decides: every reflect.Value Set/Call operand is produced by a conversion ending in Convert(t); every integer Convert is dominated by an Overflow test; FieldByName/MethodByName are dominated by the exported-name guard; conversion failures are raised as TypeError/RangeError exceptions, not Go error panics.",
-         "Not decided: exactness of each conversion cell, aliasing under interleaved mutation."),
+ "C15": ('value-representation table agreement for Go->Value->Go, API-boundary escape analysis, package-state census',
+         'Decides: every Go payload type toValue can store for a number/string/boolean is handled by every conversion routine that later reads it (ToNumber, ToString, ToBoolean); no method of Value/Object/Otto lets a panic escape except the keyed known findings; conversions share no package-level mutable state.',
+         'Not decided: equality of the round-tripped value, Export of containers, call equivalence. Thorough tier adds the recursion-cycle review (cyclic Export is a known finding).'),
+ "C16": ('panic-operand census in the bridge files, unchecked-assertion census on descriptors and payloads, package-state census',
+         'Decides: conversion failures on bridged maps, slices and arrays are raised as TypeError/RangeError exceptions (no Go error value is panicked); every unchecked type assertion on a property descriptor or bridge payload is justified by a dominating test or by the class/payload pairing of the constructors; the bridge keeps no package-level cache shared between runtimes or types.',
+         'Not decided: exactness of each numeric conversion cell (overflow/rounding), argument-buffer aliasing, arity reporting, aliasing under interleaved Go-side mutation.'),
  "C17": ("field-by-field clone routing rule over every clone function, positional-literal agreement, lock pairing",
          "Decides: in every clone function each reference-typed field of the produced struct is routed through the cloner (or is in the reviewed immutable table); the positional global{...} literal clones the i-th field from the i-th field; every payload type owning a runtime reference has a clone case; the clone runs under the runtime lock with a deferred unlock.",
          "Not decided: observational equivalence of the copy."),
  "C18": ("must-pass-through analysis for interrupt polling on every evaluator cycle, defer pairing before any may-panic instruction for scope/label/lexical state, recover-site sibling rule, stack-guard ordering",
          "Decides: the evaluator entry points poll the interrupt channel and every unbounded evaluator loop passes through a poll; scope, label and lexical state are restored by a defer registered before anything can panic (so at every injection point); recover sites re-panic foreign payloads; the depth check precedes the push.",
          "Not decided: exact admitted nesting (off-by-one arithmetic), promptness in time, state of host objects."),
- "C19": ("error-name table agreement, thrown-payload exhaustiveness at the catch sites, throw-via-helper census, position-argument sibling rule",
-         "Decides: every constant error name thrown internally is one of the seven ES5 native errors and has a constructor arm; every payload type that can be thrown has a case in catchPanic and tryCatchEvaluate; internal throws go through the helpers that attach class and trace; parseThrow converts every non-nil parse error.",
-         "Not decided: line/column arithmetic, message text, trace contents."),
+ "C19": ('error-name table agreement, thrown-payload exhaustiveness at the recover sites, panic-operand census, call-site offset ordering, intrinsic-prototype rule',
+         'Decides: every constant error name raised internally is one of the seven ES5 native errors and has a constructor arm; every JS-catchable payload type has a case in catchPanic and tryCatchEvaluate; internal throws use catchable payloads (never bare Go errors) outside reviewed dead arms; the call-site offset is stored after the arguments are evaluated; internally raised errors take their prototype from the runtime intrinsics, not from a rebindable global.',
+         'Not decided: line/column arithmetic, message text, trace contents and limits.'),
  "C20": ("write-census of package-level state and compiled nodes (no store after init on any path), no-concurrency census, lock pairing, clone routing",
          "Decides: no package-level variable of the core packages is written after initialisation from code reachable from the API; compiled nodes, ast and file objects are never written by execution; no goroutine or channel other than Interrupt exists in the core packages; clones share no mutable reference.",
          "Assumed: the standard-library objects used (regexp, time.Local, math/rand top-level, x/text printers) are concurrency-safe as documented. Not decided: result equality under interleavings (follows from no sharing, which is what is checked)."),
